@@ -229,7 +229,8 @@ impl Game {
                     if board.castle_rights(Color::White) != white_castle_rights
                         || board.castle_rights(Color::Black) != black_castle_rights
                     {
-                        reversible_moves = 0;
+                        // losing castle rights makes earlier positions unrepeatable, but it
+                        // is neither a pawn move nor a capture: the 50 move count goes on
                         legal_moves_per_turn.clear();
                     }
                     legal_moves_per_turn
